@@ -175,7 +175,8 @@ fn ren_onst_nrb(
     // that has been accounted for in each perimeter:
     // - resources used for the exported onsite electricity (EL_INSITU), in the onsite and nearby perimeters
     // - resources from nearby carriers used for the exported cogenerated electricity (EL_COGEN), in the nearby perimeter
-    let (ren_el_exp_a_onst, ren_el_exp_a_cgn_nrb) = match balance_cr.get(&Carrier::ELECTRICIDAD) {
+    // - resources from onsite carriers used for the exported cogenerated electricity (EL_COGEN), in the onsite perimeter
+    let (ren_el_exp_a_onst, ren_el_exp_a_cgn_onst, ren_el_exp_a_cgn_nrb) = match balance_cr.get(&Carrier::ELECTRICIDAD) {
         Some(cr) if cr.exp.an != 0.0 => {
             let exp_onst = *cr.exp.by_src_an.get(&ProdSource::EL_INSITU).unwrap_or(&0.0);
             let ren_onst = if exp_onst != 0.0 {
@@ -192,23 +193,24 @@ fn ren_onst_nrb(
                 0.0
             };
             let exp_cgn = *cr.exp.by_src_an.get(&ProdSource::EL_COGEN).unwrap_or(&0.0);
-            let ren_cgn_nrb = if exp_cgn != 0.0 {
-                exp_cgn
+            let ren_cgn = |perimeter: fn(&Carrier) -> bool| -> Result<f32> {
+                if exp_cgn == 0.0 {
+                    return Ok(0.0);
+                }
+                Ok(exp_cgn
                     * wfactors
-                        .compute_cgn_exp_fP_A(components, true)?
+                        .compute_cgn_exp_fP_A(components, Some(perimeter))?
                         .unwrap_or_default()
-                        .ren
-            } else {
-                0.0
+                        .ren)
             };
-            (ren_onst, ren_cgn_nrb)
+            (ren_onst, ren_cgn(Carrier::is_onsite)?, ren_cgn(Carrier::is_nearby)?)
         }
-        _ => (0.0, 0.0),
+        _ => (0.0, 0.0, 0.0),
     };
     // 4. Add all contributions
     Ok((
         // Onsite
-        ren_onst_cr + ren_el_onst - (1.0 - k_exp) * ren_el_exp_a_onst,
+        ren_onst_cr + ren_el_onst - (1.0 - k_exp) * (ren_el_exp_a_onst + ren_el_exp_a_cgn_onst),
         // Nearby
         ren_nrb_cr + ren_el_onst + ren_el_cgn
             - (1.0 - k_exp) * (ren_el_exp_a_onst + ren_el_exp_a_cgn_nrb),
